@@ -46,6 +46,7 @@ class Graph:
         s.defaults = []
         s.ddtext = {}                  # dyndep file -> text (when it is a source or produced)
         s.dd_info = {}                 # dyndep file -> {out0: (imp_outs, imp_ins, restat)}
+        s.inc = None                   # ('include'|'subninja', idx threshold): statements with idx >= threshold live in part.ninja
     def producer(s):
         p = {}
         for e in s.edges:
@@ -77,10 +78,17 @@ class Graph:
         r = e.exp + s.eff_imp(e) + (e.oo if with_oo else []) + (e.hidden if with_hidden else [])
         if e.dyndep: r = r + [e.dyndep] if e.dyndep not in r else r
         return r
-    def manifest(s):
+    def in_part(s, e):
+        inc = getattr(s, 'inc', None)
+        return bool(inc) and inc[1] <= e.idx < 900
+    def manifest(s, part=False):
+        """build.ninja (part=False) or, when the graph is split, part.ninja (part=True): the statements with idx >= threshold and
+        their rules, pulled in by an include / subninja line in front of the default statement"""
         L = []
-        for p, d in sorted(s.pools.items()): L += ['pool %s' % p, '  depth = %d' % d]
+        if not part:
+            for p, d in sorted(s.pools.items()): L += ['pool %s' % p, '  depth = %d' % d]
         for e in s.edges:
+            if s.in_part(e) != part: continue
             if e.phony: continue
             L.append('rule r%d' % e.idx)
             L.append('  command = ' + ('decoy%d' % e.idx if getattr(e, 'bl', False) else e.cmd()))
@@ -92,6 +100,7 @@ class Graph:
             if e.rsp: L += ['  rspfile = ' + e.rsp, '  rspfile_content = ' + (e.rspcontent() or '$nothing')]
             if e.dyndep and e.dd_at_rule and not e.pool and not getattr(e, 'bl', False) and not (e.blf and (e.restat or e.generator or e.deps or e.depfile)): L.append('  dyndep = ' + e.dyndep)
         for e in s.edges:
+            if s.in_part(e) != part: continue
             outs = ' '.join(e.outs[:len(e.outs) - e.n_imp_out])
             if e.n_imp_out: outs += ' | ' + ' '.join(e.outs[len(e.outs) - e.n_imp_out:])
             l = 'build %s: %s' % (outs, 'phony' if e.phony else 'r%d' % e.idx)
@@ -111,8 +120,10 @@ class Graph:
                 if e.depfile: L.append('  depfile = ' + e.depfile)
             if e.pool: L.append('  pool = ' + e.pool)
             if e.dyndep and not (e.dd_at_rule and not e.pool and not getattr(e, 'bl', False) and not (e.blf and (e.restat or e.generator or e.deps or e.depfile))): L.append('  dyndep = ' + e.dyndep)
-        if s.defaults: L.append('default ' + ' '.join(s.defaults))
+        if not part and getattr(s, 'inc', None) and any(s.in_part(e) for e in s.edges): L.append('%s part.ninja' % s.inc[0])
+        if not part and s.defaults: L.append('default ' + ' '.join(s.defaults))
         return '\n'.join(L) + '\n'
+    def is_split(s): return bool(getattr(s, 'inc', None)) and any(s.in_part(e) for e in s.edges)
 
     # ---- reference semantics ------------------------------------------------------------
     def content(s, e, out, files):
@@ -231,6 +242,7 @@ def gen_graph(rnd, nedges, feat=None, wf_reads=True):
     if rnd.random() < 0.3:
         outs = [e.out0 for e in g.edges]
         g.defaults = rnd.sample(outs, rnd.randrange(1, min(3, len(outs)) + 1))
+    if nedges >= 2 and rnd.random() < 0.15: g.inc = (rnd.choice(['include', 'subninja']), rnd.randrange(1, nedges))   # the later statements live in part.ninja
     return g
 
 def dd_text(info):
@@ -312,6 +324,7 @@ def inline_deps(g):
 def scenario_header(sid, g, sources=None):
     L = ['scenario %s' % sid]
     L.append('file %s %s' % (hx('build.ninja'), hx(g.manifest())))
+    if g.is_split(): L.append('file %s %s' % (hx('part.ninja'), hx(g.manifest(part=True))))
     for n, c in sorted((sources or g.sources).items()): L.append('file %s %s' % (hx(n), hx(c)))
     for e in g.edges:
         if e.hidden: L.append('hidden %s %s' % (hx(e.out0), ' '.join(hx(h) for h in e.hidden)))
